@@ -217,7 +217,8 @@ def rule4_leaf(ctx, v):
             leaks = []
             for h in heads:
                 for br, nn, nl in null_tests(a, h.id):
-                    leaks += [i for i in a.reachable_from(lib.first_inst(a, nn), blocked=ds, include_start=True) if i.op == 'ret']
+                    if lib.reaches_point(a, lib.first_inst(a, nn), anchor, blocked=ds, include_start=True):
+                        leaks.append(anchor)
             ok2 = bool(ds) and bool(heads) and not leaks
             ctx.ob('C11.4', 'destructor entry (re)written on every allocation', ok2,
                    'a recycled key index must not inherit the destructor of the deleted key: the entry is overwritten even when '
